@@ -79,8 +79,10 @@ def Asymm (lt : α → α → Bool) : Prop := ∀ x y, lt x y = true → lt y x 
 
 /-- All six relations of the header equal the C++20 definition through the three-way comparison, for every
     element type whose three-way comparison is synthesised from an asymmetric `<` (every type without
-    unordered values). -/
-theorem pair_rels_eq (eq1 : α → α → Bool) (eq2 : β → β → Bool) {lt1 : α → α → Bool} {lt2 : β → β → Bool}
+    unordered values).  PARTIAL: the excluded input class is "the element three-way comparison can answer
+    `unordered`" (floating-point NaN); there the header differs from `std::pair`, see
+    `pair_rels_unordered_counterexample` and the known finding F-C20-pair-rel-unordered. -/
+theorem pair_rels_eq_partial (eq1 : α → α → Bool) (eq2 : β → β → Bool) {lt1 : α → α → Bool} {lt2 : β → β → Bool}
     (h1 : Asymm lt1) (h2 : Asymm lt2) (a b : α × β) :
     Spec.modelRels eq1 eq2 lt1 lt2 a b = Spec.pairRels eq1 eq2 (Spec.synth3 lt1) (Spec.synth3 lt2) a b := by
   have a1 := h1 a.1 b.1
